@@ -79,6 +79,20 @@ PAIRS = [
     ("error-path", ["parse", "02/03/2020 10:00", None, ["en"], None, None, {"TIMEZONE": "UTC", "TO_TIMEZONE": "Asia/Tokyo"}],
      ["parse", "31/12/9999 23:00", None, ["fr"], None, None, {"TIMEZONE": "UTC", "TO_TIMEZONE": "Asia/Tokyo"}]),
     ("error-path", ["parse", "02/03/2020 10:00", None, ["en"], None, None, dict(_S_EQ)], ["parse", "31/02/2020 10:00", None, ["fr"], None, None, dict(_S_EQ)]),
+    # two calls that walk the same locale's tables (relative patterns, simplifications, the word dictionary) with different
+    # multi-token strings: whatever a call re-orders, memoises or promotes inside a per-locale container while the other call is
+    # iterating over it shows here (the strings hit different patterns and have further tokens after the first match)
+    ("same-locale-tables", ["parse", "2 weeks ago, 10:30", None, ["en"], None, None, None], ["parse", "in 3 days 14:00", None, ["en"], None, None, None]),
+    ("same-locale-tables", ["parse", "il y a 2 semaines, 10:30", None, ["fr"], None, None, None], ["parse", "dans 3 jours 14:00", None, ["fr"], None, None, None]),
+    ("same-locale-tables", ["parse", "1 year, 2 months ago at 5 pm", None, ["en"], None, None, {"RELATIVE_BASE": [2020, 2, 29, 12, 0, 0, 0]}],
+     ["parse", "in 2 hours 30 minutes", None, ["en"], None, None, {"RELATIVE_BASE": [2020, 2, 29, 12, 0, 0, 0]}]),
+    ("same-locale-tables", ["parse", "Tuesday, 3 February 2015 at 2:05 pm", None, ["en"], None, None, None],
+     ["parse", "Fri, 12 Dec 2014 10:55:50", None, ["en"], None, None, None]),
+    ("same-locale-tables", ["parse", "2 часа назад, 10:30", None, ["ru"], None, None, {"NORMALIZE": False}],
+     ["parse", "через 3 дня в 14:00", None, ["ru"], None, None, {"NORMALIZE": False}]),
+    ("same-locale-tables", ["search", "We met 2 weeks ago, then again 3 days ago at noon.", ["en"], None, False],
+     ["search", "Due in 2 months; reminded yesterday and on 5 May 2014.", ["en"], None, False]),
+    ("calendar-vs-parse", ["calendar", "jalali", "جمعه سی ام اسفند ۱۳۸۷"], ["parse", "12 بهمن 1394", None, ["fa"], None, None, None]),
 ]
 
 
@@ -358,8 +372,9 @@ def check_case(case):
                 return "None"
             if o and o[0] == "exc":
                 return "raises-" + o[1]
-            import hashlib
-            return "r" + hashlib.blake2b(repr(o).encode(), digest_size=4).hexdigest()
+            # any other value (a list of search hits, a DateData): not spelled out in the key — the hundreds of distinct wrong
+            # hit lists one race can produce would make the key depend on the seed
+            return "other-value"
         return {"ok": False, "bucket": "%s:pair%d%s:%s-wrong:%s" % (case["cls"], case["pair"], case.get("dir", "AB"), "+".join(wrong),
                                                                    "/".join(short(out[w]) for w in wrong)),
                 "detail": "A=%r preempted at event %d (%s) by B=%r (%s start): A -> %r (alone %r); B -> %r (alone %r)"
